@@ -40,10 +40,10 @@ def okOf {ε α : Type} : Except ε α → Option α
 theorem okOf_eq_some {ε α : Type} {r : Except ε α} {x : α} : okOf r = some x ↔ r = .ok x := by
   cases r <;> simp [okOf]
 
-theorem constructSM_canon_builder (cfg : SMCfg) (i : CtorInputs) :
+theorem constructSM_canon_builder (hg : Gen.EnvCtor.addGuard = .ctorArg) (cfg : SMCfg) (i : CtorInputs) :
     okOf (constructSM cfg i canonCtorSteps) =
       (okOf (construct (cfg.toEnvCfg []) i.allowArg i.ug i.uf i.ut)).map fun env => ⟨some i.allowArg, env⟩ := by
-  simp only [constructSM, canonCtorSteps, runSteps, runStep, smInit, evalAllow, withFlag, if_true,
+  simp only [constructSM, canonCtorSteps, runSteps, runStep, smInit, evalAllow, withFlag, guardOf, hg, if_true,
     construct, constructRest, SMCfg.toEnvCfg, addAll_append, addPost, builtinGlobals]
   cases addGlobals (cfg.reservedNs ++ cfg.reservedNames) i.allowArg cfg.jinjaGlobals i.ug with
   | error e => simp [okOf]
@@ -73,12 +73,12 @@ theorem constructSM_canon_builder (cfg : SMCfg) (i : CtorInputs) :
               | error e => simp [okOf]
               | ok t3 => simp [okOf]
 
-theorem constructSM_canon_generator (cfg : SMCfg) (i : CtorInputs) :
+theorem constructSM_canon_generator (hg : Gen.EnvCtor.addGuard = .ctorArg) (cfg : SMCfg) (i : CtorInputs) :
     okOf (constructSM cfg i (canonCtorSteps ++ canonDsdlSteps)) =
       (okOf (construct (cfg.toEnvCfg (cfg.instanceTests ++ cfg.generatorMethods)) i.allowArg i.ug i.uf i.ut)).map
         fun env => ⟨some i.allowArg, env⟩ := by
   simp only [constructSM, canonCtorSteps, canonDsdlSteps, List.cons_append, List.nil_append, runSteps, runStep, smInit,
-    evalAllow, withFlag, if_true, construct, constructRest, SMCfg.toEnvCfg, addAll_append, addPost_append, builtinGlobals]
+    evalAllow, withFlag, guardOf, hg, if_true, construct, constructRest, SMCfg.toEnvCfg, addAll_append, addPost_append, builtinGlobals]
   cases addGlobals (cfg.reservedNs ++ cfg.reservedNames) i.allowArg cfg.jinjaGlobals i.ug with
   | error e => simp [okOf]
   | ok g =>
